@@ -110,13 +110,7 @@ func RunBubble(t *testing.T, r *vkit.Run, idx int, o Opts, nontrivial func(*Sim)
 			if s.Rng.IntN(4) == 0 {
 				s.O.Sleep()
 			}
-			if o.Iterators && pause == nil && s.Rng.IntN(60) == 0 {
-				// stop and restart the background worker with iterators open
-				s.Logf("DB.Stop(); DB.Start()")
-				s.DB.Stop()
-				s.DB.Start()
-				s.restarts++
-			}
+
 			if o.Quiesce && s.Rng.IntN(12) == 0 {
 				if pause != nil {
 					pause.Resume()
